@@ -34,6 +34,9 @@ RUNTIMES = ["3.8", "3.9", "3.10", "3.11", "3.12", "3.13"]
 CH311 = "/opt/veriftools/pyvenv/bin/python"
 
 
+TRIPLE_QUICK_KINDS = {"NamedExpr", "Starred", "Lambda", "IfExp", "GeneratorExp", "Yield", "Yield0", "YieldFrom", "Tuple1", "Tuple2", "Slice", "Await", "JoinedStr", "Const_str", "ListComp", "DictComp", "SetComp", "Dict", "Set"}
+
+
 def program_set(tier, seed):
     rnd = random.Random(seed)
     progs = [p for p in c01.programs() if p[0].startswith("C01:single:")]
@@ -152,6 +155,25 @@ def run(tier):
                 for cfg, (st, t) in per.items():
                     if st == "ok":
                         tid(eval_texts, t)
+        # depth-3 compositions slot(slot(kind)), rendered by the custom unparser on this check's own
+        # interpreter (3.12): a parenthesis that only the newer grammars tolerate may only be
+        # dropped at the third level (e.g. a call whose only argument is a generator expression
+        # whose element is an assignment expression)
+        import zlib
+
+        from ..kernels import astcat as _astcat
+
+        _sn = list(_astcat.slots())
+        if tier == "quick":
+            # innermost kinds whose parenthesisation rules changed between grammars (assignment
+            # expressions, starred items, lambdas, conditional / generator expressions, yields,
+            # bare tuples, slices, strings and displays in f-string fields); thorough: all kinds
+            tri = c03.triple_texts(_sn, None, TRIPLE_QUICK_KINDS)
+        else:
+            tri = c03.triple_texts(_sn)
+        for d, ref, cu in tri:
+            tid(eval_texts, ref)
+            tid(eval_texts, cu)
         pj = os.path.join(wd, "parse_job.json")
         ev_list = [None] * len(eval_texts)
         for t, i in eval_texts.items():
@@ -187,6 +209,21 @@ def run(tier):
                     rows.append(("C15:syntax-custom:%s@host%s>rt%s" % (row, h, r), ok is not False, cu))
         v1, bad1 = c03.table_query("SYN_custom_unparser", [ok for _, ok, _ in rows], res)
         report_bad(rep, known, rows, "syntax")
+        # ---- table 1b: depth-3 compositions (host = this interpreter)
+        host0 = "%d.%d" % sys.version_info[:2]
+        pair_fails = {(r, row) for (d_, ok_, _c) in rows if not ok_ for r in [d_.rsplit(">rt", 1)[1]] for row in [d_.split(":", 2)[2].split("@host")[0]] if ("@host%s>" % host0) in d_}
+        rows1b = []
+        for d, ref, cu in tri:
+            if cu is None or not parse[base]["eval"][eval_texts[ref]]:
+                continue
+            s1, s2, k = d.split("|")
+            for r in runtimes:
+                if (r, "%s|%s" % (s2, k)) in pair_fails:
+                    continue  # the inner pair already fails on this runtime (reported in table 1)
+                ok = parse[r]["eval"][eval_texts[cu]]
+                rows1b.append(("C15:syntax-custom3:%s@host%s>rt%s" % (d, host0, r), ok is not False, cu))
+        v1b, bad1b = c03.table_query("SYN_custom_unparser_depth3", [ok for _, ok, _ in rows1b], res)
+        report_bad(rep, known, rows1b, "syntax")
         # ---- table 2: converted programs (both unparsers)
         rows2 = []
         valid38 = {desc: bool(parse[base]["exec"][exec_texts[src]]) for desc, src in progs}
@@ -262,11 +299,12 @@ def run(tier):
     cov["programs_valid_on_3_8"] = sum(1 for v in valid38.values() if v)
     cov["catalogue_rows"] = len(cat_rows)
     cov["syntax_rows_custom"] = len(rows)
+    cov["syntax_rows_custom_depth3"] = len(rows1b)
     cov["syntax_rows_outputs"] = len(rows2)
     cov["semantic_replay_rows"] = len(rows3)
     cov["distinct_converted_texts"] = len(item_list)
     cov["crosshair_3_11"] = ch
-    cov["evaluations"] = len(rows) + len(rows2) + len(rows3)
+    cov["evaluations"] = len(rows) + len(rows1b) + len(rows2) + len(rows3)
     cov["distinct_nontrivial"] = len(item_list) + len(cat_rows)
     cov["rule"] = "row = (text, host, runtime); distinct = distinct converted text or catalogue row"
     cov["samples"] = [{"row": rows2[i][0], "ok": rows2[i][1]} for i in range(0, len(rows2), max(1, len(rows2) // 4))][:4]
